@@ -358,7 +358,22 @@ def zi(v):
     raise TypeError(f'zi {type(v)}')
 
 
-def mk_int(t, width=None):
+def _magof(v):
+    if isinstance(v, SymInt):
+        return v.mag
+    if isinstance(v, SymBool):
+        return 1
+    return max(abs(v).bit_length(), 1)
+
+
+def _mag2(a, b, extra=1):
+    ma, mb = _magof(a), _magof(b)
+    if ma is None or mb is None:
+        return None
+    return max(ma, mb) + extra
+
+
+def mk_int(t, width=None, mag=None):
     if isinstance(t, int):
         return t
     if z3.is_int_value(t):
@@ -368,7 +383,7 @@ def mk_int(t, width=None):
         t = z3.simplify(t)
         if z3.is_int_value(t):
             return t.as_long()
-    return SymInt(t, width)
+    return SymInt(t, width, mag)
 
 
 def mk_bool(t):
@@ -485,19 +500,20 @@ def sym_ite(c, a, b):
     if isinstance(a, (bool, SymBool)) and isinstance(b, (bool, SymBool)):
         return mk_bool(z3.If(c.t, to_z3bool(a), to_z3bool(b)))
     if _isint(a) and _isint(b):
-        return mk_int(z3.If(c.t, zi(a), zi(b)))
+        return mk_int(z3.If(c.t, zi(a), zi(b)), None, _mag2(a, b, 0))
     raise TypeError('sym_ite')
 
 
 class SymInt:
     """Python int backed by a z3 Int term (mathematical integer: Python ints do not wrap).
     `width`: if set, the value is known to satisfy 0 <= v < 2**width (used by bit operations)."""
-    __slots__ = ('t', 'width')
+    __slots__ = ('t', 'width', 'mag')
     _sx_symbolic = True
 
-    def __init__(self, t, width=None):
+    def __init__(self, t, width=None, mag=None):
         self.t = t
         self.width = width
+        self.mag = mag if mag is not None else width      # |v| < 2**mag when known
 
     def __repr__(self):
         return f'SymInt({self.t})'
@@ -526,33 +542,35 @@ class SymInt:
     # ---- arithmetic
     def __add__(self, o):
         if not _isint(o): return NotImplemented
-        return mk_int(self.t + zi(o))
+        return mk_int(self.t + zi(o), None, _mag2(self, o))
     __radd__ = __add__
 
     def __sub__(self, o):
         if not _isint(o): return NotImplemented
-        return mk_int(self.t - zi(o))
+        return mk_int(self.t - zi(o), None, _mag2(self, o))
 
     def __rsub__(self, o):
         if not _isint(o): return NotImplemented
-        return mk_int(zi(o) - self.t)
+        return mk_int(zi(o) - self.t, None, _mag2(self, o))
 
     def __mul__(self, o):
         if isinstance(o, float):
             from . import floats
             return floats.int_to_float(self) * o
         if not _isint(o): return NotImplemented
+        if isinstance(o, SymInt) and ABSTRACT['nonlinear']:
+            return _abstract_result('mul', self, o)
         return mk_int(self.t * zi(o))
     __rmul__ = __mul__
 
     def __neg__(self):
-        return mk_int(-self.t)
+        return mk_int(-self.t, None, self.mag)
 
     def __pos__(self):
         return self
 
     def __abs__(self):
-        return mk_int(z3.If(self.t >= 0, self.t, -self.t))
+        return mk_int(z3.If(self.t >= 0, self.t, -self.t), None, self.mag)
 
     def __floordiv__(self, o):
         if not _isint(o): return NotImplemented
@@ -682,11 +700,35 @@ def _conc(k):
     return k
 
 
+ABSTRACT = {'nonlinear': False, 'digits': False, 'algebra': False, 'floats': False}
+
+
+def _abstract_result(op, a, b):
+    """sound over-approximation of a*b, a//b, a%b for two symbolic operands (used by the invariant
+    harnesses, where only the magnitude of the result matters): a fresh integer within the magnitude
+    bound implied by the operands"""
+    e = eng()
+    e.run_cache['abstracted'] = True
+    r = e.fresh_int('abs_' + op)
+    ma, mb = _magof(a), _magof(b)
+    if op == 'mul':
+        mag = ma + mb if ma is not None and mb is not None else None
+    elif op == 'div':
+        mag = ma + 1 if ma is not None else None
+    else:
+        mag = mb + 1 if mb is not None else None
+    if mag is not None:
+        e.add(z3.And(r > -(2 ** mag), r < 2 ** mag))
+    return SymInt(r, None, mag)
+
+
 def _floordiv(a, b):
     bz = zi(b)
     if isinstance(b, (SymInt, SymBool)):
         if eng().decide(bz == 0):
             raise ZeroDivisionError('integer division or modulo by zero')
+        if ABSTRACT['nonlinear'] and isinstance(a, SymInt):
+            return _abstract_result('div', a, b)
     elif b == 0:
         raise ZeroDivisionError('integer division or modulo by zero')
     az = zi(a)
@@ -704,6 +746,8 @@ def _mod(a, b):
     if isinstance(b, (SymInt, SymBool)):
         if eng().decide(bz == 0):
             raise ZeroDivisionError('integer division or modulo by zero')
+        if ABSTRACT['nonlinear'] and isinstance(a, SymInt):
+            return _abstract_result('mod', a, b)
     elif b == 0:
         raise ZeroDivisionError('integer division or modulo by zero')
     az = zi(a)
